@@ -27,14 +27,17 @@
 #include "upipe-modules/upipe_worker_source.h"
 #include <stdlib.h>
 #include <stdio.h>
+#include <execinfo.h>
+#include <sanitizer/common_interface_defs.h>
 
-/* The hand-over of upipe_xfer_mgr_detach (application thread) to upipe_xfer_mgr_free (remote loop) is a
- * known defect with a pending repair (pending/C06-xfer-detach-handover.patch).  Build with
- * -DC06_XFER_DETACH_OPEN=1 to treat it as an OPEN finding instead: the generated schedules then never
- * preempt the detaching call (named exclusion "xfer-detach-handover", lifted by --no-exclude). */
-#ifndef C06_XFER_DETACH_OPEN
-#define C06_XFER_DETACH_OPEN 0
-#endif
+/* OPEN finding "last-message-handover": three senders push, as their last act, the message that makes the receiving
+ * thread free the very queue they are still pushing into (uqueue_push touches the counter and the event descriptor after
+ * the element is visible):   upipe_xfer_mgr_detach  -> DETACH  -> upipe_xfer_mgr_free
+ *                            upipe_qsrc_no_ref      -> REF_END -> upipe_qsrc_free
+ *                            upipe_xfer_probe_free  -> DEAD    -> upipe_xfer_free
+ * Named exclusion: the generated schedules never preempt a thread while one of these three functions is on its stack
+ * (counted in rep->excluded); --no-exclude lifts it. */
+static const char *const handover_fns[] = { "upipe_xfer_mgr_detach", "upipe_qsrc_no_ref", "upipe_xfer_probe_free", NULL };
 
 #define PID "C06"
 #define MAXITEMS 64
@@ -113,8 +116,6 @@ struct ctx {
     struct upipe *sink[2], *qsrc, *worker, *tap, *farsink, *pseudo;
     bool sink_released[2];
     int farsink_id;
-    struct upipe_mgr *xfer_mgr_watch;       /* never dereferenced after detach started */
-    const volatile void *xfer_refaddr;
     struct upump *feeder;
     int pending, pending_target;
     bool feeder_started;
@@ -128,6 +129,7 @@ struct ctx {
     int mock_role[MAXMOCK];
     unsigned ev_thrown_local[MAXMOCK], ev_thrown_u64[MAXMOCK], ev_recv_local[MAXMOCK], ev_recv_u64[MAXMOCK];
     unsigned inner_ctrl;
+    int worker_attaches;
     /* mock source */
     int src_total, src_sent, src_change_at;
     bool src_ended;
@@ -147,7 +149,7 @@ struct ctx {
     unsigned source_end;
     int released_sinks;
     /* preemption */
-    bool armed, in_preempt, in_detach;
+    bool armed, in_preempt;
     int countdown, pre_steps; unsigned pre_choice;
     unsigned hooks_in_op;
     int ret;
@@ -180,18 +182,33 @@ static int cur_side(struct ctx *c)
 
 static void check_quiescent(struct ctx *c, const char *when);
 
+static bool on_handover_stack(void)
+{
+    void *pcs[32];
+    int n = backtrace(pcs, 32);
+    for (int i = 1; i < n; i++) {
+        char buf[1024];
+        memset(buf, 0, sizeof buf);
+        __sanitizer_symbolize_pc((char *)pcs[i] - 1, "%f", buf, sizeof buf - 1);
+        /* inlined frames come as consecutive NUL-terminated strings */
+        for (const char *f = buf; *f && f < buf + sizeof buf - 1; f += strlen(f) + 1)
+            for (int k = 0; handover_fns[k]; k++)
+                if (!strcmp(f, handover_fns[k])) return true;
+    }
+    return false;
+}
+
 void upipe_verif_yield(int kind, const volatile void *addr)
 {
     struct ctx *c = &ctx;
     if (!c->armed || c->in_preempt) return;
     c->hooks_in_op++;
-    if (c->xfer_refaddr != NULL && addr == c->xfer_refaddr && kind == UVERIF_ATOMIC_FETCH_SUB &&
-        *(const volatile uint32_t *)addr == 1) {
-        c->in_detach = true;        /* the last reference goes: upipe_xfer_mgr_detach runs inside this call */
-        c->xfer_refaddr = NULL;
-    }
     if (c->countdown <= 0 || --c->countdown > 0) return;
-    if (c->in_detach && C06_XFER_DETACH_OPEN && !(c->flags & VP_NO_EXCLUDE)) { c->excluded++; return; }
+    if (!(c->flags & VP_NO_EXCLUDE) && on_handover_stack()) {
+        c->excluded++;
+        R("    (no preemption here: a hand-over sender is on the stack -- open finding last-message-handover)\n");
+        return;
+    }
     int me = cur_side(c), other = me == SA ? SB : SA;
     if (other == SB && c->mutex_locked) return;     /* the remote loop waits for the mutex */
     c->in_preempt = true;
@@ -204,7 +221,7 @@ void upipe_verif_yield(int kind, const volatile void *addr)
 }
 
 #define ARM(c) do { (c)->armed = true; (c)->hooks_in_op = 0; } while (0)
-#define DISARM(c) do { (c)->armed = false; (c)->countdown = 0; (c)->in_detach = false; } while (0)
+#define DISARM(c) do { (c)->armed = false; (c)->countdown = 0; } while (0)
 
 /* ---------------------------------------------------------------- probes */
 
@@ -769,6 +786,7 @@ static void op_pseudo(struct ctx *c, int k)
     if (pipe == NULL) return;
     c->hash = vp_hash_mix(c->hash, 0x80 + k);
     if (c->pseudo == NULL) {
+        if (c->nmock >= MAXMOCK) return;
         struct upipe *x = mock_new(c, R_PSEUDO, sprobe_new(c, SX, "pseudo-output", NULL));
         if (x == NULL) return;
         int err = upipe_set_output(pipe, x);
@@ -791,6 +809,7 @@ static void op_attach(struct ctx *c, int k)
 {
     struct upipe *pipe = c->topo <= T_Q2 ? target_pipe(c, k % c->nsinks) : c->worker;
     if (pipe == NULL) return;
+    if (c->topo > T_Q2 && ++c->worker_attaches > 4) return;    /* each one queues up to 3 commands for the remote loop */
     ARM(c);
     int err = upipe_attach_upump_mgr(pipe);
     R("  attach_upump_mgr (%s) -> %d\n", c->topo <= T_Q2 ? "queue sink" : "worker", err);
@@ -888,7 +907,6 @@ static void setup_worker(struct ctx *c, uint8_t f, uint8_t b3, uint8_t pa)
     if (c->with_mutex) CLS(CL_MUTEX);
     struct upipe_mgr *xfer_mgr = upipe_xfer_mgr_alloc(c->xlen, msgpool, c->with_mutex ? &c->mutex : NULL);
     if (xfer_mgr == NULL) { INTERNAL("xfer mgr alloc"); return; }
-    c->xfer_refaddr = &xfer_mgr->refcount->refcount;
     if (!late_attach) { c->forced = SB; upipe_xfer_mgr_attach(xfer_mgr, c->loop[SB]); c->forced = SA; }
     struct upipe_mgr *work_mgr = c->topo == T_WLIN ? upipe_wlin_mgr_alloc(xfer_mgr) : c->topo == T_WSINK ? upipe_wsink_mgr_alloc(xfer_mgr) : upipe_wsrc_mgr_alloc(xfer_mgr);
     if (late_attach) upipe_mgr_use(xfer_mgr);     /* reference of the remote thread, released after its attach */
@@ -960,7 +978,7 @@ static int run(const uint8_t *tape, size_t len, struct vp_report *rep, unsigned 
     bool worker = c->topo > T_Q2;
     c->qlen = qlen_decode(b1, worker);
     c->qlen2 = qlen_decode(b2, worker);
-    c->xlen = (unsigned[]){ 255, 32, 16 }[(b3 / 3) % 3];
+    c->xlen = (unsigned[]){ 255, 64, 32 }[(b3 / 3) % 3];   /* >= the 24 commands a case can queue while loop B never runs */
     struct pfx_cfg cfg = { .pool_depth = (int[]){ 0, 1, 4 }[b3 % 3], .with_uref_mgr = true, .with_ubuf_mem = true, .with_upump_mgr = false, .with_uclock = true };
     if (pfx_init(&c->pfx, &cfg) != 0) return vp_internal(rep, "pfx_init");
     c->loop[SA] = c->pfx.loop;
